@@ -2,7 +2,7 @@ CHECK = {
     "suites": [
         suite("history", "c09", 8000, 80000, stdin=True),
         suite("monitor", "c09", 2000, 12000, stdin=True, args=["-suite", "monitor"]),
-        suite("cadence", "c09", 0, 60, stdin=True, args=["-suite", "cadence"], tiers=["thorough"],
+        suite("cadence", "c09", 0, 60, stdin=True, args=["-suite", "cadence"],
               timeout={"quick": 300, "thorough": 800}),
     ],
     "lean_sources": ["ClusterVerif/Model/C09.lean", "ClusterVerif/Spec/C09.lean", "ClusterVerif/Lemmas/C09.lean"],
@@ -26,7 +26,7 @@ META = {
             "never alerted twice without renewal; only reported stale metrics forgotten); the exactly-once clauses (across renewals and removals) under one explicit hypothesis (no CheckAll tick over a stored invalid metric), "
             "with a proved counterexample when they are dropped; window wrap-around; publish-loop recurrences overlap for every TTL > 0. "
             "Tied to today's code by running the real Store/Checker/pubsubmon.Monitor on seeded histories and comparing every observation with the model "
-            "and with the Lean property checker; cadence measured on the real loops with millisecond TTLs (thorough).",
+            "and with the Lean property checker; cadence measured on the real loops with millisecond TTLs (corpus cases in quick, random cases in thorough).",
     "note": "Trusted: Lean kernel (+propext, Classical.choice, Quot.sound), the hand-written model/spec, the Go harness. The phi float arithmetic is an oracle.",
     "technique": "Lean 4 invariants over histories + differential correspondence with the real monitor code",
 }
